@@ -5,6 +5,7 @@ entry points, under the deterministic call-count budget."""
 from __future__ import annotations
 
 import itertools
+import json
 
 from mc import autox, budget, core, par
 from mc.props import C12
@@ -92,6 +93,7 @@ def _drive(p, inputs, label, primes=(1,)):
                 continue  # the deeper histories get every third input
             for entry in (("payload", "message") if n_in % 4 == 0 else ("payload",)):
                 a = decs[key]
+                par.beat(json.dumps({"state": st, "input": inp.hex(), "entry": entry}) if len(inp) <= 400 else f"state {st} {entry} input {inp[:200].hex()}.. ({len(inp)} B)")
                 k, v, c = run_one(a, inp, entry)
                 if a.previous_success_decoder != st or kp > 1:
                     decs[key] = primed(st, kp, makers)
@@ -184,6 +186,30 @@ def _work_words(task) -> core.Part:
     return p
 
 
+NUMBER_TEXTS = ["0", "1", "-1", "+1", "00000001.000", "1.", ".5", "1.5e3", "1E9", "1e99", "1E308", "1E309", "1E999", "1E4300", "1E9999", "1E99999", "1E999999", "1E9999999",
+                "1E99999999", "1E999999999", "1E-9", "1E-999999999", "9" * 400, "9" * 4301, "9" * 20000, "0." + "0" * 400 + "1", "1" + "0" * 4400 + ".5", "1_000", "1,5", "1.2.3", "--1", "1e", "e1", "inf", "-inf",
+                "nan", "NaN", "sNaN", "Infinity", "0x1F", "0b1", "0o7", " 1", "1 ", "1e+", "1/3", "True", "None", ""]
+NUMBER_ADDR = ["1-0:1.7.0", "1-0:1.8.0", "1-0:2.8.0", "1-0:3.7.0", "1-0:32.7.0", "1-0:31.7.0", "0-0:1.0.0", "0-0:96.1.0", "9-9:9.9.9"]
+NUMBER_UNITS = [None, "", "W", "Wh", "kW", "kWh", "kvar", "kVAr", "kvarh", "kVArh", "V", "A", "w", "wh", "KW", "KWH", "kw", "kwh", "var", "varh", "VA", "m3", "Hz", "mA", "MW", "MWh", "GJ"]
+
+
+def _work_numbers(task) -> core.Part:
+    """Texts that number conversions treat specially (exponents of every magnitude, digit strings around the integer
+    conversion limit, signs, separators, special values) as the value of every known P1 address with every unit spelling:
+    a conversion that is cheap to request and astronomically expensive to carry out must not be reachable."""
+    lo, step = task
+    p = core.Part()
+    inputs = []
+    for num in NUMBER_TEXTS[lo::step]:
+        for addr in NUMBER_ADDR:
+            for u in NUMBER_UNITS:
+                inputs.append(f"{addr}({num}{'' if u is None else '*' + u})\r\n".encode())
+        inputs.append(f"1-0:1.7.0(1*kW)({num}*kW)\r\n1-0:2.7.0({num})\r\n".encode())
+    p.add("nontrivial", len(inputs))
+    _drive(p, inputs, "number text")
+    return p
+
+
 def main(run: core.Run) -> int:
     global _QUICK
     q = _QUICK = run.quick
@@ -211,12 +237,16 @@ def main(run: core.Run) -> int:
     at = [(c, NA, True) for c in ASCII] + [(c, ND, False) for c in ASCII]
     run.merge(par.pmap(_work_ascii, at, seed=run.seed))
     run.merge(par.pmap(_work_words, [(i, 16) for i in range(16)], seed=run.seed))
+    run.log(f"number texts: {len(NUMBER_TEXTS)} x {len(NUMBER_ADDR)} addresses x {len(NUMBER_UNITS)} unit spellings")
+    run.merge(par.pmap(_work_numbers, [(i, 16) for i in range(16)], seed=run.seed))
     from mc.props import C10
     run.merge(par.pmap(_work_clocks, [(pos,) for pos in C10.POSITIONS], seed=run.seed))
     tot = run.total
     tot.sample({"message": "ref.kaifa.list1_1320W.body", "input": "02010600000528", "states": 8, "entries": 2, "budget_calls": budget.budget_for(7)})
     tot.sample({"ascii": "1.0(1)x", "expected": "dict or None within 42 800 calls"})
-    run.bounds = {"messages": len(pick), "histories": "each remembered decoder reached by k genuine messages, k in " + str(list(PRIME_QUICK if q else PRIME_THOROUGH)), "extreme_clocks": "well-formed messages with clocks at year 1 / 9999 x 6 times x 8 deviations x 3 hundredths in all 6 date-time positions", "ascii_via_autodecoder": f"<= {NA}", "ascii_via_parse_p1_readout_content": f"<= {ND}", "max_calls_observed": tot.mx.get("max_calls", 0)}
+    run.bounds = {"messages": len(pick), "histories": "each remembered decoder reached by k genuine messages, k in " + str(list(PRIME_QUICK if q else PRIME_THOROUGH)), "extreme_clocks": "well-formed messages with clocks at year 1 / 9999 x 6 times x 8 deviations x 3 hundredths in all 6 date-time positions", "ascii_via_autodecoder": f"<= {NA}", "ascii_via_parse_p1_readout_content": f"<= {ND}", "max_calls_observed": tot.mx.get("max_calls", 0),
+                  "number_texts": f"{len(NUMBER_TEXTS)} texts (exponents up to 1E999999999, 400..20000-digit strings, signs, separators, inf/nan) x {len(NUMBER_ADDR)} P1 addresses x {len(NUMBER_UNITS)} unit spellings",
+                  "real_time_limit_per_evaluation_s": par.CASE_LIMIT}
     run.assumptions = ["time/memory bound is decided through the deterministic call-count budget (every allocation in these code paths happens inside a counted call) with an address-space limit as backstop",
                        "bytes outside the substitution alphabet are reached only through b+-1 / b^1"]
     ex = tot.c.get("executions", 0)
